@@ -38,6 +38,12 @@ pub struct Ls {
     pub publishes: Vec<(String, Value, usize)>,
     pub dir: PathBuf,
     pub log: Vec<Value>,
+    /// a handler panicked (its future was dropped; it never completes)
+    pub panicked: bool,
+    /// did the server advertise incremental text synchronisation?
+    pub incremental: bool,
+    /// what the server was last sent for each document
+    sent_text: std::collections::HashMap<String, String>,
 }
 
 pub fn settings_for(dir: &Path, linters: Value, dialect: &str) -> Value {
@@ -59,7 +65,7 @@ impl Ls {
         config.stats_path = dir.join("stats/stats.txt");
         let (service, socket) = LspService::new(|client| Backend::new(client, config));
         Self { service, socket, settings: settings_for(dir, json!({}), "American"), next_id: 1, handlers: Vec::new(),
-            publishes: Vec::new(), dir: dir.to_path_buf(), log: Vec::new() }
+            publishes: Vec::new(), dir: dir.to_path_buf(), log: Vec::new(), panicked: false, incremental: false, sent_text: Default::default() }
     }
 
     /// Create the handler future for a message without polling it.
@@ -80,11 +86,20 @@ impl Ls {
         let mut cx = Context::from_waker(&waker);
         let mut progressed = false;
         if let Some(f) = self.handlers[h].fut.as_mut() {
-            if let Poll::Ready(r) = f.as_mut().poll(&mut cx) {
-                self.handlers[h].done = true;
-                self.handlers[h].fut = None;
-                self.handlers[h].result = r.map(|resp| { let (_, body) = resp.into_parts(); body.unwrap_or(Value::Null) });
-                progressed = true;
+            // a panic inside a handler is data: the handler never finishes (the real server would die or stop answering)
+            match std::panic::catch_unwind(std::panic::AssertUnwindSafe(|| f.as_mut().poll(&mut cx))) {
+                Ok(Poll::Ready(r)) => {
+                    self.handlers[h].done = true;
+                    self.handlers[h].fut = None;
+                    self.handlers[h].result = r.map(|resp| { let (_, body) = resp.into_parts(); body.unwrap_or(Value::Null) });
+                    progressed = true;
+                }
+                Ok(Poll::Pending) => {}
+                Err(_) => {
+                    self.handlers[h].fut = None;
+                    self.panicked = true;
+                    self.log.push(json!({"panic_in_handler": self.handlers[h].label}));
+                }
             }
         }
         // drain server -> client traffic
@@ -134,6 +149,7 @@ impl Ls {
         loop {
             self.poll_once(h);
             if self.handlers[h].done { return "done"; }
+            if self.handlers[h].fut.is_none() { return "panic"; }
             if !self.handlers[h].pending_cfg.is_empty() { return "cfg"; }
             if t0.elapsed() > timeout { return "timeout"; }
             std::thread::sleep(Duration::from_micros(300));
@@ -145,6 +161,7 @@ impl Ls {
         for _ in 0..polls {
             self.poll_once(h);
             if self.handlers[h].done { return "done"; }
+            if self.handlers[h].fut.is_none() { return "panic"; }
             if !self.handlers[h].pending_cfg.is_empty() { return "cfg"; }
             std::thread::sleep(Duration::from_micros(500));
         }
@@ -173,8 +190,20 @@ impl Ls {
     }
 
     pub fn initialize(&mut self) {
-        self.call("initialize", json!({"capabilities": {}}), true);
+        let caps = self.call("initialize", json!({"capabilities": {}}), true);
+        // 1 = full documents, 2 = incremental (either a number or {change: n})
+        let sync = caps.as_ref().map(|c| &c["capabilities"]["textDocumentSync"]).cloned().unwrap_or(Value::Null);
+        self.incremental = sync == json!(2) || sync["change"] == json!(2);
         self.call("initialized", json!({}), false);
+    }
+    /// position (line, UTF-16 column) of a char offset
+    fn pos_of(text: &str, off: usize) -> Value {
+        let (mut line, mut col) = (0u64, 0u64);
+        for (i, c) in text.chars().enumerate() {
+            if i == off { break; }
+            if c == '\n' { line += 1; col = 0; } else { col += c.len_utf16() as u64; }
+        }
+        json!({"line": line, "character": col})
     }
 
     pub fn last_publish(&self, uri: &str) -> Option<&Value> {
@@ -182,10 +211,26 @@ impl Ls {
     }
 
     pub fn did_open(&mut self, uri: &str, lang: &str, text: &str) -> usize {
+        self.sent_text.insert(uri.to_string(), text.to_string());
         self.submit("textDocument/didOpen", json!({"textDocument": {"uri": uri, "languageId": lang, "version": 1, "text": text}}), false)
     }
+    /// A conforming client: whole documents unless the server advertised incremental sync; then the change from
+    /// what the server last got for this document is sent as TWO ranged edits in one notification, in document
+    /// order (the first character is deleted, then the rest - in the coordinates the first edit left - is replaced).
     pub fn did_change(&mut self, uri: &str, version: i64, text: &str) -> usize {
-        self.submit("textDocument/didChange", json!({"textDocument": {"uri": uri, "version": version}, "contentChanges": [{"text": text}]}), false)
+        let old = self.sent_text.get(uri).cloned();
+        self.sent_text.insert(uri.to_string(), text.to_string());
+        match old {
+            Some(old) if self.incremental && old.chars().count() >= 2 => {
+                let rest: String = old.chars().skip(1).collect();
+                let end = Self::pos_of(&rest, rest.chars().count());
+                let changes = json!([
+                    {"range": {"start": {"line": 0, "character": 0}, "end": Self::pos_of(&old, 1)}, "text": ""},
+                    {"range": {"start": {"line": 0, "character": 0}, "end": end}, "text": text}]);
+                self.submit("textDocument/didChange", json!({"textDocument": {"uri": uri, "version": version}, "contentChanges": changes}), false)
+            }
+            _ => self.submit("textDocument/didChange", json!({"textDocument": {"uri": uri, "version": version}, "contentChanges": [{"text": text}]}), false),
+        }
     }
     pub fn did_save(&mut self, uri: &str) -> usize {
         self.submit("textDocument/didSave", json!({"textDocument": {"uri": uri}}), false)
